@@ -25,10 +25,24 @@ CLAIMED = {
          T + "closed-form take-rate reference model at every end-of-block, boundary-aimed clock"),
  "C10": ("after every end-of-block of a block in which alliance stake, native stake, weights, a slash or a bond status changed, each bonded validator's alliance-minted stake is compared with the target recomputed from the post-state (2 base units, plus the module's integer mis-measurement of native stake where exchange rates differ from 1); non-bonded validators must not be adjusted",
          T + "fixed-point target recomputation after every triggering block"),
+ "C11": ("with minting disabled, the staking-denom supply net of the module's own stake is tracked exactly across every step (unchanged by alliance operations and rebalances, lowered only by real slash burns and by the burn of coins sent to custody), custody must hold no staking denom after end-of-block, staking-denom coins may leave custody only as forwarded rewards, and SupplyOf/TotalSupply (paginated and not) must report supply minus the independently recomputed alliance-bonded amount",
+         T + "closed-form net-supply ledger from bank mint/burn/transfer events after every step"),
+ "C12": ("after every step, on discarded branches: all pending rewards are settled, every position's entitlement is measured and compared with the pool balance (the deficit must not grow: value-changing events must not inflate accrued entitlements), and all positions claim sequentially in a rotating order; reward flow includes inflation, fee top-ups in several denoms and take-rate proceeds recycled through the fee collector",
+         T + "solvency deficit measurement and claim-for-everyone probes on discarded branches"),
+ "C13": ("eager exact-rational entitlement ledgers credited at every observed settlement (split across assets by weight x tokens/total and across positions by value, from the pre-step state) are compared with the payout of every explicit and implicit claim; second-claim and new-stake probes on discarded branches; runs avoid slashes and take-rate (C12's territory)",
+         T + "eager reference ledger for reward entitlements vs actual payouts"),
+ "C14": ("after every step weights must lie within range; every end-of-block is compared with the stated decay rule (due iff a whole interval elapsed, clamp(w x rate^n) with an 18-digit error bound, clock advance by n intervals), initialisation must flip at the first end-of-block at or after the start time, and right after any weight change (governance or decay) no validator may have rewards pending in x/distribution; block gaps are aimed at the decay boundary",
+         T + "closed-form decay reference model, pending-reward probe at every weight change"),
  "C15": ("value moved, custody/staked total/user balances, the three redelegation stores cross-checked against an exact ledger in both directions after every step, onward-hop probes while pending and right after maturity, block gaps aimed at the completion instant",
          T + "reference ledger for the three redelegation stores plus hop probes"),
+ "C16": ("the four governance messages and three legacy contents are delivered with right and wrong authorities and fields from a boundary catalogue (nil, negative, 0, 1-ulp, 1, huge; bad denoms; negative/huge durations) interleaved with user traffic, decay and aborts; wrong authority must be rejected, the asset predicate is checked after every step of every kind, updates must leave totals/denom/start/initialised untouched, deletes need an empty asset, creates are unique",
+         T + "governance boundary-value traffic inside full histories, asset predicate as inductive invariant"),
  "C17": ("the real module-manager EndBlocker runs after every block of every run with governance parameters drawn from everything the handlers accept, dust-only and drained assets, jailed/removed validators, halts of hours to months; an error or panic inside x/alliance is a violation",
          T + "end-of-block totality under accepted-parameter fuzzing and long halts"),
+ "C18": ("every schedule is executed twice from genesis; the second run performs export -> delete every module key -> import -> export on its real state at the marked block boundaries (second export must equal the first byte for byte) and the two runs' observables (results, errors, balances, assets, positions, pending entries, staking view, weight snapshots, query answers) are compared step by step for the rest of the schedule",
+         T + "lock-step differential of original vs re-imported run"),
+ "C19": ("every block is executed on two sibling branches of the committed state and then for real: per-step results, event lists and the raw KV content of the alliance, bank, staking, distribution, slashing and mint stores must be byte-identical; every 8th schedule is re-executed in fresh processes at GOMAXPROCS 1 and 16 and per-block app hashes compared; crash before commit must reproduce the app hash; a go/ast tripwire over the module's non-test sources (range over map, time.Now, math/rand, go statements, unsafe, %p) is supplementary and not the basis of the level",
+         T + "sibling-branch and cross-process re-execution with byte comparison; static tripwire as supplement"),
  "C20": ("every unbonding, redelegation and delegation query (all filter combinations, paginated with limits 1/2/3 and unpaginated) and the contract bindings are compared with an independent raw-store enumeration after every step; reported balances are probed for undelegatability on discarded branches",
          T + "query answers vs raw-store reference enumeration after every step"),
 }
